@@ -53,6 +53,7 @@ type World struct {
 	stableMemo map[string]bool
 	factMemo   map[*ssa.Function]*funcFacts
 	li         *lockInfo
+	eff        *effectInfo
 	NPkgs      int
 	NFuncs     int
 }
